@@ -26,7 +26,7 @@ ASSUMPTIONS = ["documented penalties: RIM reg*||W||^2; KernelRIM reg*tr(W' K_tra
 EVAL_COUNTER = "steps_monitored"
 FAMILIES = ["LinearModel", "RIM", "KernelRIM", "MLPModel", "SparseLinearModel", "SparseMLPModel", "CategoricalModel",
             "Douglas"]
-REQUIRED = {"quick": dict({"steps_monitored": 400, "coords_compared": 8000, "decorated_steps": 40, "late_steps": 100,
+REQUIRED = {"quick": dict({"fits_with_user_epsilon": 8, "steps_monitored": 400, "coords_compared": 8000, "decorated_steps": 40, "late_steps": 100,
                            "path_steps": 10},
                           **{"steps:" + f: 25 for f in FAMILIES}),
             "thorough": dict({"steps_monitored": 8000, "coords_compared": 200000, "decorated_steps": 800},
@@ -257,6 +257,16 @@ def run_case(case, ctx, st):
             strong = True
     if name == "Douglas" and rng.random() < 0.35:
         params["temperature"] = float(10 ** rng.uniform(-3, -1.5))     # saturated soft bins (memberships exactly 0)
+    if name in gen.GENERIC and pre is None and rng.random() < 0.15:
+        # an objective with a clipping bound the user chose (0.005 .. 0.08) and steps large enough for predictions to
+        # leave [epsilon, 1 - epsilon]: clipping is part of the objective, and must stay inside it
+        cls = ["KLGEMINI", "MI", "KLGEMINI", "TVGEMINI", "HellingerGEMINI", "ChiSquareGEMINI"][int(rng.integers(0, 6))]
+        g = {"cls": cls, "epsilon": float(10 ** rng.uniform(-2.3, -1.1))}
+        if cls != "MI":
+            g["ovo"] = bool(rng.random() < 0.5)
+        params["gemini"] = g
+        params["learning_rate"] = float(10 ** rng.uniform(-1.0, -0.2))
+        ctx.count("fits_with_user_epsilon")
     y = gen.precomputed_for(rng, pre, n)
     est = gen.build_estimator(name, params)
     # decoration
